@@ -393,6 +393,19 @@ def extra_probe(R):
                 want = sorted([(al("first_field"),), (al("second_field"),)])
                 if locs != want:
                     R.violation(f"field validator location {locs} differs from the external names {want} (aliaser {aname})", info)
+            # a structural error next to failing validators that do not depend on the invalid field (the error path of
+            # ObjectMethod.deserialize): every location of the merged error uses the external names
+            data = {al("pages"): "not an object", al("first_field"): 99, al("second_field"): 98}
+            R.count("error_path_probe")
+            try:
+                deserialize(Book, data, aliaser=al)
+                R.violation("invalid data accepted", info)
+            except ValidationError as e:
+                locs = sorted(tuple(x["loc"]) for x in e.errors)
+                want = sorted([(al("pages"),), (al("first_field"),), (al("second_field"),)])
+                if locs != want:
+                    R.violation(f"locations {locs} of a structural error merged with validator errors differ from the external "
+                                f"names {want} (aliaser {aname})", info)
     except Exception as e:
         R.violation(f"{type(e).__name__} in the generic / discard probe: {e}", info)
     finally:
